@@ -155,3 +155,13 @@ Section Instance.
       try assumption. apply non_offending_good; assumption.
   Qed.
 End Instance.
+
+(* caller-supplied inputs: the only function that mutates a parameter in place is the Bech32 encoder's
+   `data += checksum`, and each of its call sites passes a list created for the call *)
+Lemma param_mutators_exact :
+  map (fun e => (fst (fst e), snd (fst e))) param_mutators = expected_param_mutators.
+Proof. vm_compute. reflexivity. Qed.
+Lemma param_mutator_sites_fresh :
+  forallb (fun s => snd s) param_mutator_call_sites = true /\
+  forallb (fun s => smem (snd (fst (fst s))) (map fst expected_param_mutators)) param_mutator_call_sites = true.
+Proof. split; vm_compute; reflexivity. Qed.
